@@ -1005,11 +1005,39 @@ def run_streams(ctx):
     judge(ctx, 'loop-self', lc, compare_model=False)
     ctx.streams.append({'stream': 'loop-self', 'cases': len(lc)})
     judge_programs(ctx, t)
+    judge_copy_histories(ctx)
     from props import c10mods
     c10mods.run_stream(ctx, go_run, ctx.n(600, 40000))
     ctx.exhaustive = True   # arity ≤ 2 over the pools is enumerated completely
     ctx.notes.append('full product for arity ≤ 2: receivers %d × member table × pool %d (arity 2: %d²)' % (
         sum(len(v) for v in RECEIVERS.values()), len(POOL), len(CORE if ctx.quick() else POOL)))
+
+
+def judge_copy_histories(ctx):
+    """copy / mutate / display histories on lists and dictionaries (the generators of C07 and C12: copies by every copying form, then
+    移除 / 写入 / 新增 / 左移 … through either holder and a display of every holder after every step): here only "never a panic, a nil
+    result, a crash or a hang" is judged — an invariant of the collections broken through a shared copy (a key order naming a key the
+    map does not hold, a list header over freed items) shows as a Go panic in a LATER display or removal, not in the step that broke it"""
+    from props import progs
+    from zngen import cps
+    g = progs.G(ctx.rng)
+    n = ctx.n(400, 20000)
+    ps = [g.copy_program(ctx.rng.randint(4, 14)) for _ in range(n // 2)] + [g.coll_program(ctx.rng.randint(4, 14)) for _ in range(n - n // 2)]
+    cases = []
+    for prog, ins in ps:
+        src, _sx = prog.render(ctx.rng)
+        cases.append(('run %s %s' % (cps(src), ' '.join(progs.input_spec(k, v) for k, v in (ins or {}).items()))).rstrip())
+    go = go_run(ctx, cases, timeout_ms=8000)
+    for c, a in zip(cases, go):
+        ctx.evaluations += 1
+        if a.startswith(('timeout', 'crash')):
+            a = go_run(ctx, [c], timeout_ms=30000, parallel=False)[0]
+        if bad_answer(a):
+            ctx.violation('copy-histories', c, a, 'a value or a Zn error (never panic / nil / crash / timeout)')
+        else:
+            ctx.nontriv(c)
+        ctx.count('copy-histories:' + a.split(' ')[0])
+    ctx.streams.append({'stream': 'copy-histories', 'cases': len(cases)})
 
 
 def replay(ctx, data):
